@@ -22,8 +22,36 @@ def _mk(sep):
     return C
 
 
+def _mk_valsem(sep):
+    class CV(NodeMixin):
+        """value/container semantics: all instances equal, empty, falsy"""
+
+        separator = sep
+
+        def __init__(self, i):
+            self.i = i
+
+        def __repr__(self):
+            return "CV%d" % self.i
+
+        def __eq__(self, other):
+            return True
+
+        def __ne__(self, other):
+            return False
+
+        def __hash__(self):
+            return 9
+
+        def __len__(self):
+            return 0
+
+    return CV
+
+
 SEPS = ["/", ".", "|", "::"]
 CLS = dict((s, _mk(s)) for s in SEPS)
+CLS_VALSEM = dict((s, _mk_valsem(s)) for s in SEPS)
 
 BS = chr(92)
 POOL = [u"é", "a", "A", "a.b", "a*b", "x?", "ab", "AB", "[", "b", "(+", 7, "a/b", "B", "a" + BS + "b", "^a$", u"É", "a|b", "..a", "a b", "a" + chr(10) + "b", "A*"]
@@ -77,7 +105,7 @@ def get_body(cfg):
     L = nondet_int(0, cfg["L"], "ncomp")
     parts = [comps[nondet_int(0, len(comps) - 1, "comp%d" % j)] for j in range(L)]
     with concrete_region():
-        nodes = build(pv, CLS[sep])
+        nodes = build(pv, (CLS_VALSEM if cfg.get("valsem") else CLS)[sep])
         for nd, nm in zip(nodes, names):
             nd.name = nm
         nontrivial()
@@ -168,7 +196,7 @@ def glob_body(cfg):
     with concrete_region():
         from anytree import resolver as resolver_mod
 
-        nodes = build(pv, CLS[sep])
+        nodes = build(pv, (CLS_VALSEM if cfg.get("valsem") else CLS)[sep])
         for nd, nm in zip(nodes, names):
             nd.name = nm
         nontrivial()
